@@ -1621,10 +1621,14 @@ class Group:
                     emit_is(e, a, ac, nm_, "v_" + a.name, v, self.sig.get(a.name))
                 else:
                     emit_arr(e, a, ac, nm_, "v_" + a.name, self.sig[a.name]["S"], v["base"], self.sig[a.name]["T"])
+            if o.result == "index":
+                # static knowledge first: it is known even when the call itself throws
+                e.add("out.tok(\"TR\"); c9::emit_index_traits<c9::rmcv<decltype(%s)>>(out);" % o.call.format(**names))
             e.add("const auto r = %s;" % o.call.format(**names))
         if o.result == "index":
+            if inst.cfg == "cx":
+                e.add("out.tok(\"TR\"); c9::emit_index_traits<c9::rmcv<decltype(r)>>(out);")
             e.add("out.tok(\"RES\"); c9::emit_any(out, r);")
-            e.add("out.tok(\"TR\"); c9::emit_index_traits<c9::rmcv<decltype(r)>>(out);")
         else:
             for a in o.args:
                 if a.typ == "arr":
